@@ -241,6 +241,12 @@ m("C15-r7", "C15", "libwallet/src/internal/scan.rs", "\t\tlet max_child_index = 
 m("C06-r7", "C06", "libwallet/src/api_impl/foreign.rs", "\t\ttx::update_stored_tx(&mut *w, keychain_mask, &context, &sl, false)?;\n\t\t{\n\t\t\tlet mut batch = w.batch(keychain_mask)?;\n\t\t\tbatch.delete_private_context(sl.id.as_bytes())?;\n\t\t\tbatch.commit()?;\n\t\t}\n", "\t\t{\n\t\t\tlet mut batch = w.batch(keychain_mask)?;\n\t\t\tbatch.delete_private_context(sl.id.as_bytes())?;\n\t\t\tbatch.commit()?;\n\t\t}\n\t\ttx::update_stored_tx(&mut *w, keychain_mask, &context, &sl, false)?;\n", "C06.R7")
 m("C11-r7", "C11", "libwallet/src/internal/tx.rs", "\t\tif t.tx_type == TxLogEntryType::TxReceived && is_invoiced {\n", "\t\tif t.tx_type == TxLogEntryType::TxReceived || is_invoiced {\n", "C11.R7")
 
+m("C15-n1", "C15", "impls/src/backends/lmdb.rs", "\t\tlet mut batch = self.batch(keychain_mask)?;\n\t\tbatch.save_child_index(parent_key_id, deriv_idx)?;", "\t\tlet active = self.parent_key_id.clone();\n\t\tlet mut batch = self.batch(keychain_mask)?;\n\t\tbatch.save_child_index(&active, deriv_idx)?;", "C15.R2")
+m("C15-n2", "C15", "impls/src/backends/lmdb.rs", "\t\tlet mut return_path = parent_key_id.to_path();", "\t\tlet mut return_path = self.parent_key_id.to_path();", "C15.R2")
+m("C15-n3", "C15", "impls/src/backends/lmdb.rs", "\t\tlet mut deriv_idx = {\n\t\t\tlet batch = self.db.batch()?;\n\t\t\tlet deriv_key = to_key(DERIV_PREFIX, &mut parent_key_id.to_bytes().to_vec());", "\t\tlet mut deriv_idx = {\n\t\t\tlet batch = self.db.batch()?;\n\t\t\tlet deriv_key = to_key(DERIV_PREFIX, &mut self.parent_key_id.to_bytes().to_vec());", "C15.R2")
+m("C16-r7a", "C16", "libwallet/src/internal/selection.rs", "\t\t\tlet change_key = wallet.next_child(keychain_mask, parent_key_id)?;", "\t\t\tlet active = wallet.parent_key_id();\n\t\t\tlet change_key = wallet.next_child(keychain_mask, &active)?;", "C16.R7")
+m("C16-r7b", "C16", "libwallet/src/internal/selection.rs", "\tlet key_id = keys::next_available_key(wallet, keychain_mask, &parent_key_id)?;", "\tlet active = wallet.parent_key_id();\n\tlet key_id = keys::next_available_key(wallet, keychain_mask, &active)?;", "C16.R7")
+
 
 def for_property(prop):
     return [x for x in M if x["property"] == prop]
